@@ -45,7 +45,13 @@ EVENTS = [['call', 0], ['call', 1], ['call', 2], ['call', 'ref'], ['call_wrong_s
           ['mut_ref_coords'], ['mut_tgt_coords'], ['mut_arg_coords', 1], ['mut_last_result'],
           ['respecies_arg', 1], ['call_list', 'empty'], ['call_list', 'two'], ['mut_tgt_resids'],
           ['renumber_arg_big', 1]]
+# events explored on the plain chain pair only (keeps the other pairs' history spaces as they were)
+EXTRA = [['degen_arg', 1, 'near'], ['degen_arg', 1, 'exact'], ['call_case_name']]
 SCALE = 0.5
+
+
+def alphabet(pair):
+    return EVENTS + EXTRA if pair == 'chain4_to_6' else EVENTS
 
 
 def _dec(a, d=3):
@@ -146,6 +152,20 @@ class World:
             self.snapshot['shorter'] = self._lazy['shorter'].atoms_positions.copy()
         return self._lazy['shorter']
 
+    @property
+    def cased(self):
+        """Another species (own topology) whose name differs from the reference species' only in letter case;
+        same atoms, residues and bonds."""
+        if 'cased' not in self._lazy:
+            from gaddlemaps.components import System
+            recs = [(ri, rn, an, i + 1, self._base[i] + 0.1) for i, (an, rn, ri) in enumerate(self._ratoms)]
+            s = System(MemFile(gro_text(recs), 'cased.gro'),
+                       MemFile(itp_text('Refmol', self._ratoms, self._redges), 'Refmol.itp'))
+            self._keep = getattr(self, '_keep', []) + [s]
+            self._lazy['cased'] = s[0]
+            self.snapshot['cased'] = self._lazy['cased'].atoms_positions.copy()
+        return self._lazy['cased']
+
     def _same_name(self, atoms, edges, base):
         from gaddlemaps.components import System
         pts = np.vstack([base, base[-1:] + 0.2])[:len(atoms)]
@@ -198,7 +218,7 @@ class C04(Check):
         thorough = tier == 'thorough'
         self.bounds = {'depth': 4 if thorough else 3, 'depth_chain4_shared_top': 5 if thorough else 3,
                        'depth_special_pairs': 3 if thorough else 2,
-                       'events': len(EVENTS), 'de_bruijn_orders': [2, 3]}
+                       'events': len(EVENTS), 'extra_events_on_chain4_to_6': len(EXTRA), 'de_bruijn_orders': [2, 3]}
         u = []
         for pair in PAIRS:
             for mode in self.MODES:
@@ -207,15 +227,16 @@ class C04(Check):
                     depth -= 1            # the three special-purpose pairs one level shallower
                 if pair == 'chain4_to_6' and mode == 'shared_top':
                     depth = self.bounds['depth_chain4_shared_top']
+                EV = alphabet(pair)
                 if depth >= 5:
-                    for i in range(len(EVENTS)):
-                        for j in range(len(EVENTS)):
+                    for i in range(len(EV)):
+                        for j in range(len(EV)):
                             u.append({'k': 'bfs', 'pair': pair, 'mode': mode, 'depth': depth, 'first': i, 'second': j})
                     u.append({'k': 'bfs', 'pair': pair, 'mode': mode, 'depth': 2, 'first': None})
                     for order in (2, 3):
                         u.append({'k': 'debruijn', 'pair': pair, 'mode': mode, 'order': order})
                     continue
-                for i in range(len(EVENTS)):
+                for i in range(len(EV)):
                     u.append({'k': 'bfs', 'pair': pair, 'mode': mode, 'depth': depth, 'first': i})
                 u.append({'k': 'bfs', 'pair': pair, 'mode': mode, 'depth': 1, 'first': None})
                 for order in (2, 3):
@@ -290,7 +311,7 @@ class C04(Check):
                     V.append(('call/result-not-a-molecule', str(type(out))))
                 else:
                     got = out.atoms_positions
-                    if got.shape != exp_pos.shape or not np.array_equal(got, exp_pos):
+                    if got.shape != exp_pos.shape or not np.array_equal(got, exp_pos, equal_nan=True):
                         dm = float(np.abs(got - exp_pos).max()) if got.shape == exp_pos.shape else -1
                         V.append(('call/result-differs-from-fresh-map', f'max coordinate difference {dm:.3e}'))
                     if [a.name for a in out] != exp_names or len(out) != exp_len:
@@ -304,11 +325,27 @@ class C04(Check):
                             V.append(('call/result-is-not-a-new-object', k))
                     w.results.append(out)
                     w.snapshot[f'result{len(w.results) - 1}'] = out.atoms_positions.copy()
+            elif name == 'degen_arg':
+                # the argument is deformed so that its highest anchor lies 5e-7 nm from ('near': a finite, well defined
+                # frame) or exactly on ('exact': that frame is undefined, the atoms tied to it come out as nan - for a
+                # fresh map just the same) its SECOND frame neighbour
+                if ev[1] not in getattr(w, 'respecied', ()):
+                    nb = {}
+                    for i, j in w._redges:
+                        nb.setdefault(i, []).append(j)
+                        nb.setdefault(j, []).append(i)
+                    a0 = max(i for i in nb if len(nb[i]) >= 2)
+                    a = w.args[ev[1]]
+                    pos = a.atoms_positions
+                    pos[sorted(nb[a0])[1]] = pos[a0] + (np.array([3e-7, -4e-7, 0.0]) if ev[2] == 'near' else 0.0)
+                    a.atoms_positions = pos
+                    mutated = f'arg{ev[1]}'
             elif name in ('call_wrong_species', 'call_target_itself', 'call_ndarray', 'call_same_name_longer',
-                          'call_same_name_shorter'):
-                bad = {'call_wrong_species': w.other, 'call_target_itself': w.tgt,
-                       'call_ndarray': w.args[0].atoms_positions, 'call_same_name_longer': w.longer,
-                       'call_same_name_shorter': w.shorter}[name]
+                          'call_same_name_shorter', 'call_case_name'):
+                bad = {'call_wrong_species': lambda: w.other, 'call_target_itself': lambda: w.tgt,
+                       'call_case_name': lambda: w.cased,
+                       'call_ndarray': lambda: w.args[0].atoms_positions, 'call_same_name_longer': lambda: w.longer,
+                       'call_same_name_shorter': lambda: w.shorter}[name]()
                 try:
                     w.map(bad)
                     V.append((f'{name}/accepted', 'no exception'))
@@ -344,7 +381,7 @@ class C04(Check):
             now = o.atoms_positions
             if k == mutated:
                 w.snapshot[k] = now.copy()
-            elif k in w.snapshot and not np.array_equal(now, w.snapshot[k]):
+            elif k in w.snapshot and not np.array_equal(now, w.snapshot[k], equal_nan=True):
                 V.append((f'{name}/coordinates-of-{k.rstrip("0123456789")}-changed', f'{k}'))
                 w.snapshot[k] = now.copy()
         return V
@@ -367,6 +404,7 @@ class C04(Check):
             for sig, det in viol:
                 R.violation(sig, desc, det)
 
+        EV = alphabet(pair)
         if case['k'] == 'replay':
             w = build()
             for i, ev in enumerate(case['history']):
@@ -375,17 +413,17 @@ class C04(Check):
                     on_transition(case['history'][:-1], ev, viol)
             return
         if case['k'] == 'debruijn':
-            word = de_bruijn_linear(len(EVENTS), case['order'])
-            hist = [EVENTS[i] for i in word]
+            word = de_bruijn_linear(len(EV), case['order'])
+            hist = [EV[i] for i in word]
             bfs.run_history(build, step, hist, on_transition)
             R.traces += 1
             R.add('max_history_length', len(hist))
             return
         first = case.get('first')
         if first is None:
-            st = bfs.bfs(build, lambda s: EVENTS, step, lambda s: None, case['depth'], on_transition)
+            st = bfs.bfs(build, lambda s: EV, step, lambda s: None, case['depth'], on_transition)
         else:
-            pre = [EVENTS[first]] + ([EVENTS[case['second']]] if 'second' in case else [])
+            pre = [EV[first]] + ([EV[case['second']]] if 'second' in case else [])
             w0 = build()
             if any(step(w0, e) for e in pre):
                 return          # the prefix already diverges: reported by the shallow unit, not expanded
@@ -395,7 +433,7 @@ class C04(Check):
                 for e in pre:
                     step(w, e)
                 return w
-            st = bfs.bfs(build0, lambda s: EVENTS, step, lambda s: None, case['depth'] - len(pre),
+            st = bfs.bfs(build0, lambda s: EV, step, lambda s: None, case['depth'] - len(pre),
                          lambda h, e, v: on_transition(pre + h, e, v))
         R.states += st['states']
         R.traces += st['transitions']
